@@ -7,7 +7,11 @@ MASK = (1 << 64) - 1
 
 class Rng:
     def __init__(self, seed):
-        self.s = (seed * 0x9E3779B97F4A7C15 + 0x1234567) & MASK
+        # scramble the seed so that neighbouring seeds do not yield shifted copies of one stream
+        z = (seed * 0xD1342543DE82EF95 + 0x632BE59BD9B4E019) & MASK
+        z = ((z ^ (z >> 32)) * 0xDABA0B6EB09322E3) & MASK
+        z = ((z ^ (z >> 29)) * 0xBF58476D1CE4E5B9) & MASK
+        self.s = z ^ (z >> 32)
 
     def u64(self):
         self.s = (self.s + 0x9E3779B97F4A7C15) & MASK
